@@ -21,7 +21,7 @@ def main():
     shutil.rmtree(W, ignore_errors=True)
     os.makedirs(W + "/raw")
     shutil.copytree(os.path.join(ROOT, "harness"), W + "/h", ignore=shutil.ignore_patterns("target", ".build.lock"))
-    env = dict(os.environ, RUSTFLAGS="-C instrument-coverage", CARGO_NET_OFFLINE="true")
+    env = dict(os.environ, RUSTFLAGS="-C instrument-coverage", CARGO_NET_OFFLINE="true", LLVM_PROFILE_FILE=f"{W}/buildraw/b-%p.profraw")  # instrumented build scripts / proc macros must not drop .profraw files into /repo
     r = subprocess.run(["cargo", "+nightly", "build", "--release", "--offline"], cwd=W + "/h", env=env, stdout=subprocess.PIPE, stderr=subprocess.STDOUT)
     if r.returncode != 0:
         print(r.stdout.decode()[-2000:]); sys.exit(1)
